@@ -7,11 +7,12 @@ only i32 / i64: float operands cross the host boundary as bit patterns and are r
 the module (`f32.reinterpret_i32` ...), so NaN payloads and signalling NaNs reach the instruction
 unchanged on every engine (the JS API of V8 cannot pass them faithfully as numbers).
 
-funcs: name -> F(sig, cls, instr, off, lean)
+funcs: name -> F(sig, cls, instr, off, lean, body)
   sig   "ii:i"  (i = i32, I = i64; carriers for f32 / f64)
   cls   ibin irel iun ieqz icvt | fbin frel fun ftrunc fconv fcvt reint | load store | msize mgrow mfill mcopy |
         select brtable callind unreachable rec
-  lean  True when the Lean reference (Model/C31.lean) implements the row
+  lean  True when the Lean reference (Model/C31.lean) implements every instruction of the body
+  body  the WAT instruction list; `lean_prog(f)` renders it for the Lean driver (`wamodel_c31`)
 
 `ops(funcs, rng, tier)` generates the operand grid as protocol lines:
   c <func> <sig> <hex args>        pure call
@@ -20,7 +21,7 @@ funcs: name -> F(sig, cls, instr, off, lean)
 """
 import collections, struct
 
-F = collections.namedtuple("F", "sig cls instr off lean")
+F = collections.namedtuple("F", "sig cls instr off lean body")
 
 PAGE = 65536
 MEM_MIN, MEM_MAX = 1, 4          # (memory 1 4)
@@ -98,6 +99,45 @@ def _func(name, ptypes, rtypes, body):
         "%s:%s" % ("".join(_carrier(t) for t in ptypes), "".join(_carrier(t) for t in rtypes))
 
 
+_LEAN_OPS = set(["select", "drop", "memory.size", "memory.grow", "memory.fill", "memory.copy", "i32.wrap_i64", "i64.extend_i32_s",
+                 "i64.extend_i32_u", "i32.eqz", "i64.eqz"]
+                + ["%s.%s" % (t, k) for t in ("i32", "i64") for k in IBIN + IREL + IUN]
+                + [m for m, _, _ in LOADS + STORES if not m.startswith("f")])
+
+
+def lean_tok(ins):
+    """'i32.load offset=7' -> 'i32.load=7'; 'local.get 0' -> 'local.get=0'; None if the reference does not model it"""
+    p = ins.split()
+    if p[0] in ("local.get", "i32.const", "i64.const") and len(p) == 2:
+        return "%s=%d" % (p[0], int(p[1]))
+    if p[0] in _LEAN_OPS:
+        if len(p) == 1:
+            return p[0]
+        if len(p) == 2 and p[1].startswith("offset="):
+            return "%s=%s" % (p[0], p[1][7:])
+    return None
+
+
+def lean_ok(body):
+    return all(lean_tok(i) is not None for i in body)
+
+
+def lean_prog(f):
+    return ",".join(lean_tok(i) for i in f.body)
+
+
+def build_grow():
+    """the small module the `g` lines run on (fresh instance per line): same memory declaration, five functions"""
+    out = ["(module $c31_growmod", "(memory $memory %d %d)" % (MEM_MIN, MEM_MAX), '(export "memory" (memory $memory))']
+    out.append('(func $g1 (export "memory.size") (result i32)\n  memory.size\n)')
+    out.append('(func $g2 (export "memory.grow") (param i32) (result i32)\n  local.get 0\n  memory.grow\n)')
+    out.append('(func $g3 (export "i32.store8@0") (param i32) (param i32)\n  local.get 0\n  local.get 1\n  i32.store8 offset=0\n)')
+    out.append('(func $g4 (export "i32.load8_u@0") (param i32) (result i32)\n  local.get 0\n  i32.load8_u offset=0\n)')
+    out.append('(func $g5 (export "i32.load8_u@1") (param i32) (result i32)\n  local.get 0\n  i32.load8_u offset=1\n)')
+    out.append(")")
+    return "\n".join(out) + "\n"
+
+
 def build():
     """-> (wat text, OrderedDict name -> F)"""
     out = ["(module $c31_instmod"]
@@ -113,7 +153,7 @@ def build():
         _func.n += 1
         txt, sig = _func(name, ptypes, rtypes, body)
         out.append(txt)
-        funcs[name] = F(sig, cls, instr, off, lean)
+        funcs[name] = F(sig, cls, instr, off, lean and lean_ok(body), list(body))
 
     def simple(instr, ptypes, rtypes, cls, lean=False):
         body = []
@@ -171,7 +211,38 @@ def build():
     add("memory.fill", ["i32", "i32", "i32"], [], ["local.get 0", "local.get 1", "local.get 2", "memory.fill"], "mfill", "memory.fill", lean=True)
     add("memory.copy", ["i32", "i32", "i32"], [], ["local.get 0", "local.get 1", "local.get 2", "memory.copy"], "mcopy", "memory.copy", lean=True)
     # store followed by a differently-sized load at the same address, inside one function
-    add("st32_ld8s", ["i32", "i32"], ["i32"], ["local.get 0", "local.get 1", "i32.store", "local.get 0", "i32.load8_s offset=3"], "store", "st32_ld8s", 0, lean=False)
+    add("st32_ld8s", ["i32", "i32"], ["i32"], ["local.get 0", "local.get 1", "i32.store", "local.get 0", "i32.load8_s offset=3"], "store", "st32_ld8s", 0, lean=True)
+
+    # ---- composites: a 32-bit result produced from 64-bit operands (or by 32-bit overflow) feeds an instruction that must
+    # see exactly 32 bits (an engine that keeps i32 values in 64-bit registers must not let the upper half leak)
+    W = ["local.get 0", "i32.wrap_i64"]
+    add("wrap;extend_u", ["i64"], ["i64"], W + ["i64.extend_i32_u"], "combo", "i64.extend_i32_u", lean=True)
+    add("wrap;extend_s", ["i64"], ["i64"], W + ["i64.extend_i32_s"], "combo", "i64.extend_i32_s", lean=True)
+    for k in ("shr_u", "shr_s", "div_u", "rem_u", "div_s", "rotl", "rotr", "lt_u", "ge_s", "eq"):
+        add("wrap;i32.%s" % k, ["i64", "i32"], ["i32"], W + ["local.get 1", "i32.%s" % k], "combo", "i32.%s" % k, lean=True)
+        add("wrap2;i32.%s" % k, ["i32", "i64"], ["i32"], ["local.get 0", "local.get 1", "i32.wrap_i64", "i32.%s" % k], "combo", "i32.%s" % k, lean=True)
+    for k in ("clz", "ctz", "popcnt", "eqz"):
+        add("wrap;i32.%s" % k, ["i64"], ["i32"], W + ["i32.%s" % k], "combo", "i32.%s" % k, lean=True)
+    add("wrap;f64.convert_i32_u", ["i64"], ["f64"], W + ["f64.convert_i32_u", "i64.reinterpret_f64"], "combo", "f64.convert_i32_u")
+    add("wrap;f32.convert_i32_s", ["i64"], ["f32"], W + ["f32.convert_i32_s", "i32.reinterpret_f32"], "combo", "f32.convert_i32_s")
+    add("wrap;select", ["i32", "i32", "i64"], ["i32"], ["local.get 0", "local.get 1", "local.get 2", "i32.wrap_i64", "select"], "combo", "select", lean=True)
+    add("wrap;i32.load8_u", ["i64"], ["i32"], W + ["i32.load8_u offset=0"], "mcombo", "i32.load8_u", lean=True)
+    add("wrap;i32.load@65535", ["i64"], ["i32"], W + ["i32.load offset=65535"], "mcombo", "i32.load", lean=True)
+    add("wrap;i64.store", ["i64", "i64"], [], W + ["local.get 1", "i64.store offset=0"], "mcombo", "i64.store", lean=True)
+    add("wrap;memory.fill", ["i64", "i64", "i64"], [], W + ["local.get 1", "i32.wrap_i64", "local.get 2", "i32.wrap_i64", "memory.fill"], "mcombo", "memory.fill", lean=True)
+    for k in ("add", "sub", "mul", "shl"):
+        A = ["local.get 0", "local.get 1", "i32.%s" % k]
+        add("i32.%s;extend_u" % k, ["i32", "i32"], ["i64"], A + ["i64.extend_i32_u"], "combo", "i64.extend_i32_u", lean=True)
+        add("i32.%s;shr_u" % k, ["i32", "i32", "i32"], ["i32"], A + ["local.get 2", "i32.shr_u"], "combo", "i32.shr_u", lean=True)
+        add("i32.%s;div_u" % k, ["i32", "i32", "i32"], ["i32"], A + ["local.get 2", "i32.div_u"], "combo", "i32.div_u", lean=True)
+        add("i32.%s;lt_u" % k, ["i32", "i32", "i32"], ["i32"], A + ["local.get 2", "i32.lt_u"], "combo", "i32.lt_u", lean=True)
+        add("i32.%s;i32.load8_u" % k, ["i32", "i32"], ["i32"], A + ["i32.load8_u offset=0"], "mcombo", "i32.load8_u", lean=True)
+        add("i32.%s;i32.load16_s@65534" % k, ["i32", "i32"], ["i32"], A + ["i32.load16_s offset=65534"], "mcombo", "i32.load16_s", lean=True)
+        add("i32.%s;i32.store8" % k, ["i32", "i32", "i32"], [], A + ["local.get 2", "i32.store8 offset=0"], "mcombo", "i32.store8", lean=True)
+    for k in ("eq", "lt_u", "gt_s"):
+        add("i64.%s;extend_u" % k, ["i64", "i64"], ["i64"], ["local.get 0", "local.get 1", "i64.%s" % k, "i64.extend_i32_u"], "combo", "i64.extend_i32_u", lean=True)
+        add("i64.%s;i32.sub" % k, ["i64", "i64", "i32"], ["i32"], ["local.get 2", "local.get 0", "local.get 1", "i64.%s" % k, "i32.sub"], "combo", "i32.sub", lean=True)
+    add("i64.eqz;i32.load8_u", ["i64"], ["i32"], ["local.get 0", "i64.eqz", "i32.load8_u offset=0"], "mcombo", "i32.load8_u", lean=True)
 
     # ---- parametric
     for t in ("i32", "i64", "f32", "f64"):
@@ -202,7 +273,7 @@ def build():
     _func.n += 1
     out.append('(func $rec (export "rec") (param i32) (result i32)\n  local.get 0\n  i32.eqz\n  if (result i32)\n    i32.const 7\n  else\n'
                '    local.get 0\n    i32.const 1\n    i32.sub\n    call $rec\n    i32.const 1\n    i32.add\n  end\n)\n')
-    funcs["rec"] = F("i:i", "rec", "call", 0, False)
+    funcs["rec"] = F("i:i", "rec", "call", 0, False, [])
     out.append(")")
     return "\n".join(out) + "\n", funcs
 
@@ -345,7 +416,7 @@ def ops(funcs, rng, tier):
             xs = pool[pt[0]]
             ys = xs
             if not big:
-                xs, ys = sub(xs, 34), sub(ys, 34)
+                xs, ys = sub(xs, 26), sub(ys, 26)
             for x in xs:
                 for y in ys:
                     L.append("c %s %s %s" % (name, f.sig, hx(x, y)))
@@ -362,7 +433,7 @@ def ops(funcs, rng, tier):
             xs = fp[ft]
             ys = xs
             if not big:
-                xs, ys = sub(xs, 56), sub(ys, 56)
+                xs, ys = sub(xs, 44), sub(ys, 44)
             for x in xs:
                 for y in ys:
                     L.append("c %s %s %s" % (name, f.sig, hx(x, y)))
@@ -404,6 +475,24 @@ def ops(funcs, rng, tier):
                 d, s = rng.randrange(0, 600), rng.randrange(0, 600)
                 n = rng.randrange(0, 700)
                 L.append("m memory.copy iii: %s" % hx(d, s, n) if f.cls == "mcopy" else "m memory.fill iii: %s" % hx(d, rng.getrandbits(9), n))
+        elif f.cls in ("combo", "mcombo"):
+            his = [0, 1, 0xffffffff, 0xdeadbeef, 0x80000000]
+            los = [0, 1, 2, 31, 32, 33, 255, 65535, 65536, 65537, 0x7fffffff, 0x80000000, 0x80000001, 0xffff0000, 0xfffffffe, 0xffffffff]
+            cand = {"i": los + [rng.getrandbits(32) for _ in range(3)],
+                    "I": [(h << 32) | l for h in his for l in los] + [rng.getrandbits(64) for _ in range(4)]}
+            per = {1: 400, 2: 16, 3: 6}[len(pt)] if not big else {1: 400, 2: 40, 3: 12}[len(pt)]
+            cols = [sub(cand[c], per) for c in pt]
+            tag = "c" if f.cls == "combo" else "m"
+
+            def rec(k, acc):
+                if k == len(cols):
+                    L.append("%s %s %s %s" % (tag, name, f.sig, hx(*acc)))
+                    return
+                for v in cols[k]:
+                    rec(k + 1, acc + [v])
+            rec(0, [])
+            for _ in range(200 if big else 30):
+                L.append("%s %s %s %s" % (tag, name, f.sig, hx(*[rng.choice(cand[c]) if rng.random() < .7 else rng.getrandbits(32 if c == "i" else 64) for c in pt])))
         elif f.cls == "select":
             c = pt[0]
             vs = pool[c][:12]
@@ -425,7 +514,8 @@ def ops(funcs, rng, tier):
         elif f.cls == "rec":
             for d in (0, 1, 10, 1000):
                 L.append("c %s %s %s" % (name, f.sig, hx(d)))
-            L.append("c %s %s %s" % (name, f.sig, hx(0xffffffff)))          # exhausts the call stack
+            if big:
+                L.append("c %s %s %s" % (name, f.sig, hx(0xffffffff)))      # exhausts the call stack (10-50 s on the compiler engine)
     # memory.grow sequences (each on a fresh instance)
     seqs = [[0], [1], [3], [4], [1, 1, 1, 1], [2, 2], [0, 3, 0, 1], [65535], [65536], [0x7fffffff], [0xffffffff], [1, 0xffffffff, 2, 1],
             [3, 0, 1], [2, 1, 1]]
